@@ -46,6 +46,8 @@ pub struct Cfg {
     pub cursor_every: u64,
     /// property under check ("" = every rule fatal)
     pub focus: &'static str,
+    /// judge object lifetimes only
+    pub ledger_only: bool,
 }
 
 impl Cfg {
@@ -82,6 +84,7 @@ pub fn new_mon<K: El, V: El>(cfg: &Cfg) -> Mon<K, V> {
     m.check_every = cfg.check_every.max(1);
     m.cursor_every = cfg.cursor_every.max(1);
     m.focus = cfg.focus;
+    m.ledger_only = cfg.ledger_only;
     m
 }
 
@@ -208,6 +211,9 @@ pub fn write_replay(dir: &str, prop: &str, tag: &str, cfg: &Cfg, ops: &[Op], msg
     let _ = writeln!(s, "hasher {}", crate::exec::bh_to_code(&cfg.bh));
     let _ = writeln!(s, "cap {}", cfg.cap);
     let _ = writeln!(s, "check_every {}", cfg.check_every);
+    if cfg.ledger_only {
+        let _ = writeln!(s, "ledger_only 1");
+    }
     for (k, v) in extra {
         let _ = writeln!(s, "{k} {v}");
     }
@@ -248,6 +254,7 @@ pub fn read_replay(path: &str) -> Option<Replay> {
         check_every: fields.get("check_every").and_then(|s| s.parse().ok()).unwrap_or(1),
         cursor_every: 1,
         focus: static_prop(fields.get("property").map(|s| s.as_str()).unwrap_or("")),
+        ledger_only: fields.get("ledger_only").map_or(false, |v| v == "1"),
     };
     Some(Replay { prop: fields.get("property").cloned().unwrap_or_default(), kind: fields.get("kind").cloned().unwrap_or_else(|| "map".into()), cfg, ops, fields })
 }
@@ -321,6 +328,10 @@ impl Report {
     }
 
     pub fn violation(&mut self, cfg: &Cfg, tag: &str, ops: &[Op], v: Viol) -> bool {
+        if v.prop == ABANDON {
+            self.bump("histories_abandoned_without_verdict", 1);
+            return false;
+        }
         if v.prop == HARNESS {
             if self.harness_errors.len() < 5 {
                 let path = write_replay(&self.replay_dir, "HARNESS", tag, cfg, ops, &v.msg, &[]);
